@@ -210,7 +210,7 @@ func GetSignerFromPEMBytes(privateKey []byte) (crypto.Signer, error) {
 func ValidatePublicKeyStrength(pub interface{}) (bool, error) {
 	switch k := pub.(type) {
 	case *rsa.PublicKey:
-		if k.Size() < 256 { //ksize is in bytes
+		if k.N.BitLen() < 2048 {
 			return false, nil
 		}
 
